@@ -28,6 +28,8 @@ try:
     if a.runs:
         env["VERIF_RUNS"] = a.runs
     env["VERIF_EVIDENCE_DIR"] = os.path.join(d, "evidence")
+    if not a.keep_replays:
+        env.setdefault("VERIF_REPLAY_DIR", os.path.join(d, "replays"))  # replays against a mutant are not kept in /verif
     r = subprocess.run(["/venv/bin/python", "-m", "checks.run", a.prop, "--tier", a.tier], cwd=verif, env=env)
     sys.exit(r.returncode)
 finally:
